@@ -49,7 +49,10 @@ func decPow10(m int64, exp int) sdk.Dec { // m * 10^exp
 // repMetric: latency / sync value from zero and the smallest Dec to huge.
 func (s *Sim) repMetric(astro bool) sdk.Dec {
 	if astro && s.R.Intn(2) == 0 {
-		return decPow10(int64(1+s.R.Intn(9)), 24+s.R.Intn(14)) // 1e24 .. 9e37
+		if s.R.Intn(2) == 0 {
+			return decPow10(int64(1+s.R.Intn(9)), 6+s.R.Intn(4)) // 1e6 .. 9e9: around the report validation's bound (1e9)
+		}
+		return decPow10(int64(1+s.R.Intn(9)), 24+s.R.Intn(14)) // 1e24 .. 9e37 (rejected by the report validation since the fix)
 	}
 	switch s.R.Intn(10) {
 	case 0:
@@ -63,9 +66,17 @@ func (s *Sim) repMetric(astro bool) sdk.Dec {
 	case 6:
 		return sdk.NewDec(int64(1 + s.R.Intn(100000)))
 	case 7:
-		return decPow10(int64(1+s.R.Intn(9)), 9+s.R.Intn(4))
+		return decPow10(int64(1+s.R.Intn(9)), 5+s.R.Intn(4)) // 1e5 .. 9e8
 	case 8:
-		return decPow10(int64(1+s.R.Intn(9)), 15+s.R.Intn(4))
+		// at and just above the largest value the report validation accepts; far above it
+		switch s.R.Intn(3) {
+		case 0:
+			return pairingtypes.MaxQosMetric
+		case 1:
+			return pairingtypes.MaxQosMetric.Add(sdk.SmallestDec())
+		default:
+			return decPow10(int64(1+s.R.Intn(9)), 15+s.R.Intn(4))
+		}
 	default:
 		return sdk.NewDecWithPrec(int64(1+s.R.Intn(20)), 1)
 	}
